@@ -19,6 +19,8 @@ invariant k_1 == n-2i, n unchanged, result/abserr arbitrary), one call on every 
       written, and (result, abserr) is replaced by (new, |e_2-e_1|+|new-e_2|+|e_1-e_0|) exactly when that error is not larger.
       With the shift contract S (_shift_table == qelg's table shift, every admissible (limexp, old_n, n)) this gives by
       induction (by hand): outside the guards the table holds the even columns of Wynn's epsilon table, HUGE boundary
+  D7  on a path where no guard fires the table is shifted with n unchanged, and a full table (n == limexp-1) drops exactly its
+      oldest element (n -> limexp-2): the extrapolation keeps running over the most recent limexp-1 terms
   D5  the first three terms: Dea == e_1 + 1/(1/d2 - 1/d1 + 1/(e_1 - HUGE)) outside the guards (dea3's formula with the
       1/HUGE regulariser in place of TINY); first and second call return the term itself
 """
@@ -39,7 +41,8 @@ TRUSTED = ['A1 float == real; A2 object arrays == float arrays',
            'z3 / cvc5 as deciders']
 ASSUMPTIONS = ['EpsAlg: no difference of the epsilon table is within 1e-60 of zero', 'finite real input']
 NOT_DECIDED = ['behaviour inside the convergence / irregularity guards beyond totality; rounding']
-BOUNDED = ['dea-concrete: Dea on 42 concrete (sequence, limexp) cases incl. sequences that hit the guards on the first terms (floating point; finite values, error floor, agreement with dea3, transients recovered) -- executed, not proved (non-finite sentinels such as inf cannot be represented as reals in the symbolic harness)',
+BOUNDED = ['dea-concrete (second obligation): EpsAlg and Dea fed integer-typed terms (python ints, numpy integers, integer partial sums) compared with the same terms as floats, 15 cases -- executed, not proved',
+           'dea-concrete: Dea on 49 concrete (sequence, limexp) cases incl. sequences that hit the guards on the first terms (floating point; finite values, error floor, agreement with dea3, transients recovered) -- executed, not proved (non-finite sentinels such as inf cannot be represented as reals in the symbolic harness)',
            'EpsAlg table identity: sequence length <= 6 (quick) / 9 (thorough) -- the state grows with the length',
            'Dea: limexp enumerated (quick 3,5,7; thorough 3,5,7,9,11,21,61 with all admitted n for limexp <= 11 and '
            'n in {2,3,limexp-3,limexp-2,limexp-1}, cut positions {0,1,mid,last} for the large tables); table contents '
@@ -256,13 +259,16 @@ def run_dea(limexp, n):
                         loc.update(k_1=n_ - 2 * len(rng), abserr=fresh('abserr'), result=fresh('result'), all_converged=False,
                                    i=len(rng) - 1)
                         return post_f(**{k: loc.get(k) for k in names})
+                    shifts = []
+                    orig_shift = d._shift_table
+                    d._shift_table = lambda epstab_, n_arg, newelm_, old_n_: (shifts.append((n_arg, old_n_)), orig_shift(epstab_, n_arg, newelm_, old_n_))[1]
                     if where[0] != 'direct':
                         d._dea = dea_cut
                     try:
                         r = ex.Dea.__call__(d, s_value)
                     except InvOK as e:
                         return ('loop-invariant', e.args[0], e.args[1] if len(e.args) > 1 else None, None)
-                    return ('returned', (d._n, d._nres, len(d.epstab), d.limexp), r, hyps())
+                    return ('returned', (d._n, d._nres, len(d.epstab), d.limexp, tuple(shifts)), r, hyps())
                 paths = explore(one_call, catch=(IndexError, ValueError, TypeError, KeyError, AttributeError, ZeroDivisionError), max_paths=4096)
                 info['paths'] += len(paths)
                 solve.fact(tag + 'D1:no-exception-on-any-of-%d-paths' % len(paths), all(p.exc is None for p in paths),
@@ -301,7 +307,13 @@ def run_dea(limexp, n):
                             solve.prove(tag + 'path%d:D6:result-is-the-element-with-the-smaller-error-estimate' % pi,
                                         z3.Or(z3.And(ra == rb, ea == eb, errn > eb), z3.And(ra == lift(af[k1]).t, ea == errn, errn <= eb)), H)
                         continue
-                    n2, nres2, ln, lx = st
+                    n2, nres2, ln, lx, shifts_ = st
+                    if where[0] in ('exit', 'direct') and n >= 2 and shifts_:
+                        # D7 no guard fired on this path (the loop ran to its end): the table is shifted by one element; when it is full
+                        # (n == limexp-1) exactly the oldest element is dropped (n -> limexp-2), otherwise nothing is dropped
+                        want_n = Lodd - 2 if n == Lodd - 1 else n
+                        solve.fact(tag + 'path%d:D7:full-table-drops-exactly-its-oldest-element(_shift_table(n=%d,old_n=%d))' % (pi, want_n, n),
+                                   shifts_ == ((want_n, n),), note=str(shifts_))
                     J = (0 <= n2 <= lx - 1) and nres2 >= 0 and ln == lx + 5 and lx == Lodd
                     if not J:
                         okJ = False
@@ -426,7 +438,10 @@ def run_shift(tier):
 def run_dconc():
     from ndvc.concrete import dea_cases
     cnt, bad = dea_cases(mods()['ex'])
-    solve.fact('Dea-on-concrete-sequences:finite,floor,first-three-terms==dea3,transients-recovered[%d cases]' % cnt, not bad, kind='bounded', note=str(bad[:2])[:400])
+    solve.fact('Dea-on-concrete-sequences:finite,floor,first-three-terms==dea3,transients-recovered,limit-kept-with-a-full-table[%d cases]' % cnt, not bad, kind='bounded', note=str(bad[:2])[:400])
+    from ndvc.concrete import epsilon_integer_cases
+    cnt, bad = epsilon_integer_cases(mods()['ex'])
+    solve.fact('integer-typed-terms:EpsAlg-and-Dea-return-what-the-same-terms-as-floats-give[%d cases]' % cnt, not bad, kind='bounded', note=str(bad[:2])[:400])
     return {}
 
 def run_group(args):
